@@ -4,6 +4,9 @@
 //! usage: drv_storage --programs <file|-> --out <file|-> [--timeout SECS]
 //!        drv_storage --random N [--len L] --out <file> [--dump-programs <file> [--dump-only]]
 //!
+//!        drv_storage --loc --out <file>      binding E: boundary archive locations through every place that
+//!                                            serialises them (see loc_events)
+//!
 //! Program:
 //!   {"comp":"dyn"|"inst"|"arch", "mode":"none"|"zlib"|"lz4", "compress":bool,
 //!    "payloads":[["a","plain",300], ...],            name, class, nominal length
@@ -632,6 +635,14 @@ fn bulk_program(rng: &mut Rng) -> Value {
         payloads.push(json!([format!("p{i}"), if rng.chance(1, 4) { "comp" } else { "plain" }, 8 + rng.below(40)]));
     }
     let mut ops = vec![];
+    // one bulk history in four starts far into the archive: 9 x 8 MiB first, so that every later object lies
+    // beyond 64 MiB (offsets that need more than 26 bits)
+    if rng.chance(1, 4) {
+        for i in 0..9 {
+            payloads.push(json!([format!("big{i}"), "comp", (8 << 20) + i]));
+            ops.push(json!({"op": "write", "p": format!("big{i}")}));
+        }
+    }
     let mut written = 0usize;
     let mut removed: Vec<u64> = vec![];
     while written < npay {
@@ -721,10 +732,116 @@ fn random_program(rng: &mut Rng, len: usize) -> Value {
     json!({"comp": comp, "mode": mode, "compress": compress, "payloads": payloads, "ops": ops})
 }
 
+// ---------------------------------------------------------------------------------- binding E: locations
+/// Boundary locations (archive id x offset x size) are pushed through the four places of the crate that
+/// serialise the 5-byte archive location, always through the public API:
+///   via "update":     UpdateEntry::new(..).to_bytes() -> UpdateEntry::from_bytes   (+ the 5 bytes written)
+///   via "entry":      IndexEntry::new(..).to_packed() -> IndexEntry::from_packed   (+ the 5 bytes written)
+///   via "idx_log":    IndexManager::add_entry; save_all; a second manager: load_all; lookup  (update section)
+///   via "idx_sorted": ... flush_all_updates (merge into the sorted section); a third manager: load_all; lookup
+/// Recorded: what went in, what came back (-1 = not found).  Judged by T_Storage (PackLoc / identity).
+fn loc_events(out: &mut Out) {
+    use cascette_client_storage::index::update::{UpdateEntry, UpdateStatus};
+    use cascette_client_storage::index::{ArchiveLocation, IndexEntry};
+    const IDS: [u16; 9] = [0, 1, 2, 3, 4, 255, 256, 1022, 1023];
+    const OFFS: [u32; 16] = [0, 1, 255, 256, 65_535, 65_536, 16_777_215, 16_777_216, 67_108_863, 67_108_864, 67_108_865,
+                             134_217_728, 268_435_456, 536_870_912, 536_883_257, 1_073_741_823];
+    const SIZES: [u32; 3] = [0, 59, 0x7FFF_FFFF];
+    out.ev(&json!({"op": "new", "comp": "loc", "mode": "none", "compress": false, "res": "ok", "payloads": []}));
+    let mut seq = 0u64;
+    let mut rng = Rng::new(0x10c);
+    let mut grid: Vec<([u8; 16], u16, u32, u32)> = vec![];
+    for &id in &IDS {
+        for &off in &OFFS {
+            for &size in &SIZES {
+                let mut key = [0u8; 16];
+                key.copy_from_slice(&rng.bytes(16));
+                key[0] |= 1; // never the all-zero key (the idx loader treats it as an empty slot)
+                grid.push((key, id, off, size));
+            }
+        }
+    }
+    let mut emit = |out: &mut Out, via: &str, g: &([u8; 16], u16, u32, u32), back: Option<(u16, u32, u32)>, bytes: Option<&[u8]>, res: &str| {
+        seq += 1;
+        let (rid, roff, rsize) = back.map_or((-1i64, -1i64, -1i64), |(a, b, c)| (i64::from(a), i64::from(b), i64::from(c)));
+        let mut ev = json!({"op": "loc", "via": via, "id": g.1, "off": g.2, "size": g.3, "rid": rid, "roff": roff, "rsize": rsize,
+                            "res": res, "seq": seq});
+        if let Some(b) = bytes {
+            ev["bytes"] = json!(b.iter().map(|x| u64::from(*x)).collect::<Vec<u64>>());
+        }
+        out.ev(&ev);
+    };
+    for g in &grid {
+        let mut k9 = [0u8; 9];
+        k9.copy_from_slice(&g.0[..9]);
+        // UpdateEntry: [0x0D] 5 location bytes
+        match guarded(|| {
+            let b = UpdateEntry::new(k9, ArchiveLocation { archive_id: g.1, archive_offset: g.2 }, g.3, UpdateStatus::Normal).to_bytes();
+            let e = UpdateEntry::from_bytes(&b);
+            let ok = e.validate_hash_guard() && e.ekey == k9;
+            (b, e.archive_location.archive_id, e.archive_location.archive_offset, e.encoded_size, ok)
+        }) {
+            Ok((b, i, o, s, ok)) => emit(out, "update", g, if ok { Some((i, o, s)) } else { None }, Some(&b[13..18]), "ok"),
+            Err(_) => emit(out, "update", g, None, None, "panic"),
+        }
+        // IndexEntry: key (9) + 5 location bytes + size (4)
+        match guarded(|| {
+            let b = IndexEntry::new(k9, g.1, g.2, g.3).to_packed(9, 30, 32);
+            let e = IndexEntry::from_packed(&b, 9, 30, 32).ok();
+            (b, e.map(|e| (e.archive_id(), e.archive_offset(), e.size)))
+        }) {
+            Ok((b, back)) => emit(out, "entry", g, back, if b.len() >= 14 { Some(&b[9..14]) } else { None }, "ok"),
+            Err(_) => emit(out, "entry", g, None, None, "panic"),
+        }
+    }
+    // through the .idx files
+    let rt = rt();
+    let dir = tempfile::tempdir_in(scratch()).expect("tempdir");
+    let lookup_all = |out: &mut Out, via: &str, emit: &mut dyn FnMut(&mut Out, &str, &([u8; 16], u16, u32, u32), Option<(u16, u32, u32)>, Option<&[u8]>, &str)| {
+        let r = guarded(|| {
+            let mut m = IndexManager::new(dir.path());
+            rt.block_on(m.load_all()).map(|()| m)
+        });
+        for g in &grid {
+            match &r {
+                Ok(Ok(m)) => {
+                    let back = m.lookup(&EncodingKey::from_bytes(g.0)).map(|e| (e.archive_id(), e.archive_offset(), e.size));
+                    emit(out, via, g, back, None, "ok");
+                }
+                Ok(Err(e)) => emit(out, via, g, None, None, &kind(e)),
+                Err(_) => emit(out, via, g, None, None, "panic"),
+            }
+        }
+    };
+    let mut a = IndexManager::new(dir.path());
+    let added = guarded(|| {
+        for g in &grid {
+            a.add_entry(&EncodingKey::from_bytes(g.0), g.1, g.2, g.3).expect("driver: add_entry");
+        }
+        a.save_all().expect("driver: save_all");
+    });
+    if added.is_err() {
+        eprintln!("driver: could not build the index for --loc");
+        std::process::exit(4);
+    }
+    lookup_all(out, "idx_log", &mut emit);
+    if guarded(|| a.flush_all_updates().expect("driver: flush_all_updates")).is_err() {
+        eprintln!("driver: could not flush the index for --loc");
+        std::process::exit(4);
+    }
+    lookup_all(out, "idx_sorted", &mut emit);
+}
+
 fn main() {
     quiet_panics();
     let args: Vec<String> = std::env::args().collect();
     let mut out = Out::from_arg(arg(&args, "--out").as_ref());
+    if has_flag(&args, "--loc") {
+        loc_events(&mut out);
+        out.flush();
+        eprintln!("{}", json!({"programs": 1, "events": out.events, "hangs": 0, "skipped": 0}));
+        return;
+    }
     let mut programs = vec![];
     if let Some(p) = arg(&args, "--programs") {
         programs = read_programs(&p);
